@@ -4,6 +4,7 @@ import (
 	"context"
 	"fmt"
 	"net"
+	"os"
 	"runtime"
 	"strings"
 	"sync"
@@ -42,7 +43,7 @@ type c18scn struct {
 	Sessions  int      `json:"sessions"`
 	Busy      bool     `json:"busy"`
 	Echo      bool     `json:"echo,omitempty"` // the server's message handler answers every message (with its own context)
-	Moment    string   `json:"moment"` // immediate | storm | parked | traffic
+	Moment    string   `json:"moment"`         // immediate | storm | parked | traffic
 	Storm     int      `json:"storm"`
 	Perturb   bool     `json:"perturb"`
 	Stalled   int      `json:"stalled"` // clients that stop reading while the server keeps pushing to them
@@ -87,6 +88,11 @@ func (c18) Plan(tier string, seed uint64) []core.Case {
 		}
 		if i == 0 {
 			cases = append(cases, core.Case{ID: "C18/inproc-registry", Engine: "registry", Seed: seed, Solo: true, TimeoutS: 300})
+			rounds := 25
+			if tier == "thorough" {
+				rounds = 200
+			}
+			cases = append(cases, core.Case{ID: "C18/failrace", Engine: "failrace", Seed: seed, Solo: true, P: map[string]interface{}{"rounds": rounds}, TimeoutS: 600})
 		}
 		cases = append(cases, core.Case{ID: fmt.Sprintf("C18/%03d", i/per), Engine: "scenarios", Seed: core.Derive(seed, uint64(i)).Uint64(), Solo: true, P: map[string]interface{}{"scenarios": sub, "race": tier == "thorough" && (i/per)%3 == 0}, TimeoutS: 600})
 	}
@@ -98,6 +104,10 @@ func (p c18) Run(c core.Case) core.Result {
 	r.Verdict = core.Held
 	if c.Engine == "registry" {
 		p.registry(&r, c)
+		return r
+	}
+	if c.Engine == "failrace" {
+		p.failRace(&r, c)
 		return r
 	}
 	var scns []c18scn
@@ -113,13 +123,13 @@ func (p c18) Run(c core.Case) core.Result {
 }
 
 type c18cb struct {
-	mu         sync.Mutex
-	chans      map[string]*lime.ServerChannel
-	est        map[string]int
-	fin        map[string]int
+	mu                sync.Mutex
+	chans             map[string]*lime.ServerChannel
+	est               map[string]int
+	fin               map[string]int
 	estNotEstablished []string // Established callback for a channel that is not in the established state
-	finBefore  []string // finished before established
-	handlerPre []string // handler ran before established callback
+	finBefore         []string // finished before established
+	handlerPre        []string // handler ran before established callback
 }
 
 func (p c18) scenario(r *core.Result, s c18scn, seed uint64) {
@@ -602,9 +612,121 @@ func (p c18) scenario(r *core.Result, s c18scn, seed uint64) {
 	}
 }
 
-
 // registry: clients keep dialling the in-process address while servers on it are started and closed over and over;
 // the process must survive (the child's death is attributed to this case by the parent).
+// failRace: the application fails its sessions at the very moment the server is closed (the server's own finish of
+// each session races with the application's FailSession). Nothing may panic; the serve call returns the closed error;
+// every session gets exactly one Established and one Finished callback.
+func (p c18) failRace(r *core.Result, c core.Case) {
+	rng := core.NewRng(c.Seed)
+	for round := 0; round < c.Int("rounds", 100); round++ {
+		var mu sync.Mutex
+		chans := []*lime.ServerChannel{}
+		est, fin := map[string]int{}, map[string]int{}
+		cfg := rig.DefaultServerConfig()
+		cfg.ChannelBufferSize = 2
+		cfg.Established = func(id string, ch *lime.ServerChannel) {
+			mu.Lock()
+			chans = append(chans, ch)
+			est[id]++
+			mu.Unlock()
+		}
+		cfg.Finished = func(id string) {
+			mu.Lock()
+			fin[id]++
+			mu.Unlock()
+		}
+		flavours := []string{rig.InProc}
+		if round%4 == 3 {
+			flavours = []string{rig.InProc, rig.TCP}
+		}
+		sr, err := rig.StartServer(cfg, nil, flavours, 0)
+		if err != nil {
+			r.Verdict = core.Inconclusive
+			r.Note = err.Error()
+			return
+		}
+		ctx, cancel := context.WithTimeout(context.Background(), 30*time.Second)
+		n := 1 + rng.Intn(4)
+		var clients []*lime.ClientChannel
+		for i := 0; i < n; i++ {
+			cc, _, err := sr.EstablishClient(ctx, flavours[i%len(flavours)], 2, 2, lime.Identity{Name: fmt.Sprintf("fr%d", i), Domain: "verif.local"}, "i")
+			if err == nil {
+				clients = append(clients, cc)
+				go func() {
+					for range cc.MsgChan() {
+					}
+				}()
+			}
+		}
+		// wait for the callbacks of the sessions the clients saw
+		for k := 0; k < 2000; k++ {
+			mu.Lock()
+			got := len(chans)
+			mu.Unlock()
+			if got >= len(clients) {
+				break
+			}
+			time.Sleep(time.Millisecond)
+		}
+		mu.Lock()
+		scs := append([]*lime.ServerChannel{}, chans...)
+		mu.Unlock()
+		var wg sync.WaitGroup
+		start := make(chan struct{})
+		for _, sc := range scs {
+			wg.Add(1)
+			go func(sc *lime.ServerChannel) {
+				defer wg.Done()
+				<-start
+				for k := rng.Intn(3); k > 0; k-- {
+					runtime.Gosched()
+				}
+				fctx, fc := context.WithTimeout(context.Background(), 5*time.Second)
+				_ = sc.FailSession(fctx, &lime.Reason{Code: 9, Description: "application"})
+				fc()
+			}(sc)
+		}
+		close(start)
+		t0 := time.Now()
+		serveErr, ok := sr.Close(15 * time.Second)
+		tClose := time.Since(t0)
+		wg.Wait()
+		cancel()
+		if os.Getenv("VERIF_DEBUG_TIMES") != "" {
+			fmt.Fprintf(os.Stderr, "failrace round %d: close %v total-after-close %v\n", round, tClose, time.Since(t0))
+		}
+		r.Evals++
+		r.Count("scenarios", 1)
+		r.Count("failrace_rounds", 1)
+		r.Count("failrace_sessions", len(scs))
+		if !ok {
+			r.Violate("C18/serve-did-not-return", fmt.Sprintf("fail race round %d: ListenAndServe did not return within 15 s after Close while the application was failing %d sessions", round, len(scs)))
+			return
+		}
+		if serveErr != lime.ErrServerClosed {
+			r.Violate("C18/serve-error", fmt.Sprintf("fail race round %d: ListenAndServe returned %v instead of ErrServerClosed", round, serveErr))
+		} else {
+			r.Count("serve_returned_closed", 1)
+		}
+		for _, cc := range clients {
+			_ = cc.Close()
+		}
+		time.Sleep(2 * time.Millisecond)
+		mu.Lock()
+		for id, e := range est {
+			if e != 1 || fin[id] > 1 {
+				r.Violate("C18/finished-callback-count", fmt.Sprintf("fail race round %d: session %s got %d Established and %d Finished callbacks", round, id, e, fin[id]))
+			}
+		}
+		mu.Unlock()
+		if len(r.Findings) > 3 {
+			return
+		}
+	}
+	r.Fingerprints = append(r.Fingerprints, fmt.Sprintf("failrace|%d", c.Seed%10000))
+}
+
 func (p c18) registry(r *core.Result, c core.Case) {
 	addrs := []lime.InProcessAddr{rig.NewInProcAddr(), rig.NewInProcAddr()}
 	stop := make(chan struct{})
